@@ -299,7 +299,7 @@ struct HCv : Harness {
     r.rc = sim_guard(call_routine, &k);
     r.unjoined = sim_unjoined();
     sim_end_run(&r.sr);
-    if (r.sr.races) { r.race_cls = race_class(); r.race_txt = races_text(); }
+    if (r.sr.races && races_are_verdicts()) { r.race_cls = race_class(); r.race_txt = races_text(); }
     const sim_switch *sw; size_t n = sim_switches(&sw);
     if (n && n < 6000) r.switches = switches_text(sw, n);
     return r;
